@@ -656,6 +656,22 @@ def run_anon_out(ctx: Ctx | None, case: dict) -> None:
                 await asyncio.sleep(c["gap"])
             await asyncio.sleep(1.0)
             emitted = [d for t in loop.transports for (d, a) in t.sent if tuple(a) == dest]
+            # where each packet left the tunnel: only the exit (last hop) of a circuit of the configured length may emit it
+            owner = {}
+            for nd in w.nodes:
+                for sock in nd.overlay.exit_sockets.values():
+                    for t in (sock.transport_ipv4, sock.transport_ipv6):
+                        if t is not None:
+                            owner[id(t)] = nd
+            exits = {w.path(x)[-1].idx for x in origin.overlay.circuits.values()
+                     if len(x.hops) == hops and x.hops and w.path(x)[-1] is not None}
+            for t in loop.transports:
+                for (d, a) in t.sent:
+                    if tuple(a) == dest and d in sent and id(t) in owner and exits and owner[id(t)].idx not in exits:
+                        fail("I2", "wrong_exit", f"packet #{d[22]} of the anonymised overlay (TunnelEndpoint configured for "
+                                                 f"{hops} hops) left the tunnel at node {owner[id(t)].idx}, which is not the exit "
+                                                 f"of a {hops}-hop circuit of the originator (exits: {sorted(exits)}): a "
+                                                 f"half-built circuit was used")
             for d in emitted:
                 if d not in sent:
                     fail("I3", "foreign", f"the exit emitted {d[:24].hex()}.. which the anonymised overlay never sent")
